@@ -43,6 +43,10 @@ class C06(Prop):
                 cols = [[c[0]] * n for c in cols]
             elif r < 0.2:
                 st = "recal"
+            if cfg.get("elem_f") is None and cfg["kind"] != "logloss" and rng.random() < 0.15:
+                # the same data in a small unit (2**-30, 2**-40): no absolute tolerance may decide which blocks are pooled
+                u = rng.choice([2.0**-30, 2.0**-40])
+                ys, cols = [v * u for v in ys], [[v * u for v in col] for col in cols]
             c = {"stream": st, **cfg, "y": ys, "cols": cols, "w": dc.gen_weights(rng, n), "colnames": dc.gen_colnames(rng, ncols)}
             if st == "data" and rng.random() < 0.1:
                 # counts: observations AND forecasts held in an unsigned / narrow integer dtype (differences must not wrap around)
